@@ -310,6 +310,21 @@ impl Case {
         }
     }
 
+    /// (label, upper-cased name of the head command) of every connection with a pending command
+    fn pending_heads(&self) -> Vec<(String, String)> {
+        self.world
+            .lock()
+            .map(|w| {
+                w.conns
+                    .iter()
+                    .filter_map(|c| c.pending.front().map(|p| {
+                        (c.label.clone(), p.args.first().map(|a| String::from_utf8_lossy(a).to_uppercase()).unwrap_or_default())
+                    }))
+                    .collect()
+            })
+            .unwrap_or_default()
+    }
+
     fn pending_conns(&self) -> Vec<String> {
         self.world
             .lock()
@@ -543,6 +558,12 @@ async fn run_generated(seed_rng: &mut Rng, s: &mut Streams, ins: &[String], outs
     let all_keys: Vec<String> = cfg.keys_in.iter().chain(cfg.keys_out.iter()).cloned().collect();
     // schedule flavour: how eager the scheduler is to inject client ops early / to starve a connection
     let inject_w = *g.rng.pick(&[1u64, 2, 4, 8]);
+    // adversarial flavours: keep RESTOREs (resp. DELs at the source) of the importing proxy in flight as long as
+    // anything else can run
+    let hold_restore = g.rng.chance(1, 4);
+    let hold_srcdel = g.rng.chance(1, 6);
+    if hold_restore { s.stats.count("gen.flavour.hold_restore"); }
+    if hold_srcdel { s.stats.count("gen.flavour.hold_srcdel"); }
     let mut starve: Option<String> = None;
     let mut steps = 0;
     let mut complete = false;
@@ -573,10 +594,25 @@ async fn run_generated(seed_rng: &mut Rng, s: &mut Streams, ins: &[String], outs
         if g.budget > 0 && outstanding < 6 {
             choices.push((inject_w, Action::Tick)); // placeholder replaced below
         }
+        let heads = c.pending_heads();
+        let mut held: Vec<String> = vec![];
         for p in &pend {
+            let head = heads.iter().find(|h| &h.0 == p).map(|h| h.1.clone()).unwrap_or_default();
+            let holdable = (hold_restore && p.starts_with("Dc-rd") && head == "RESTORE")
+                || (hold_srcdel && p.starts_with("Dc-rs") && head == "DEL");
+            if holdable {
+                held.push(p.clone());
+                continue;
+            }
             let w = if starve.as_ref() == Some(p) { 0 } else { 4 };
             if w > 0 {
                 choices.push((w, Action::Exe { conn: p.clone() }));
+            }
+        }
+        // held commands run only when nothing else is left (or rarely, to vary)
+        if !held.is_empty() && (choices.iter().all(|c| matches!(c.1, Action::Tick)) || g.rng.chance(1, 40)) {
+            for p in &held {
+                choices.push((4, Action::Exe { conn: p.clone() }));
             }
         }
         for p in &can_commit {
@@ -783,7 +819,7 @@ fn main() {
         let lines = read_lines(p);
         rt.block_on(run_replay(&lines, &mut s));
     } else {
-        let cases = args.extra.get("cases").and_then(|c| c.parse().ok()).unwrap_or(if args.thorough { 4000 } else { 150 });
+        let cases = args.extra.get("cases").and_then(|c| c.parse().ok()).unwrap_or(if args.thorough { 5000 } else { 150 });
         for _ in 0..cases {
             rt.block_on(run_generated(&mut rng, &mut s, &ins, &outs, 600));
         }
